@@ -10,6 +10,7 @@ package server
 // property itself on (configuration, OPEN bytes, resulting fsm fields) without the model.
 
 import (
+	"context"
 	"encoding/binary"
 	"fmt"
 	"io"
@@ -20,10 +21,12 @@ import (
 	"slices"
 	"sort"
 	"strings"
+	"sync"
 	"testing"
 	"testing/synctest"
 	"time"
 
+	"github.com/osrg/gobgp/v4/internal/pkg/table"
 	"github.com/osrg/gobgp/v4/pkg/config/oc"
 	"github.com/osrg/gobgp/v4/pkg/packet/bgp"
 )
@@ -571,7 +574,7 @@ func c08NewFSM(c *c08Cfg) (*fsm, *fsmHandler) {
 	g, n := c.build()
 	f := newFSM(g, n, bgp.BGP_FSM_IDLE, slog.New(slog.DiscardHandler))
 	f.conn = &c08Conn{}
-	h := &fsmHandler{fsm: f, callback: func(*fsmMsg) {}}
+	h := &fsmHandler{fsm: f, outgoing: f.outgoingCh, callback: func(*fsmMsg) {}}
 	f.h = h
 	return f, h
 }
@@ -985,6 +988,7 @@ func c08Case(o *vOut, r *vRand, c *c08Cfg, specs []*c08OpenSpec) {
 		ticker := c08Ticker(f)
 		o.ask(ticker, "ticker")
 		c08CheckSession(o, c, body, f, recvMax, ticker, opens)
+		c08Boundaries(o, r, c, rm, f, h, opens)
 
 		// coverage counters
 		fm := c08FamilyMap(f)
@@ -1139,4 +1143,201 @@ func c08Corpus(o *vOut, r *vRand) {
 	c08Case(o, r, c2, []*c08OpenSpec{
 		{version: 4, myAS: 65002, hold: 90, id: 0x0a000002, params: caps(bgp.NewCapMultiProtocol(bgp.RF_IPv4_UC), g, l)},
 		{version: 4, myAS: 65002, hold: 90, id: 0x0a000002, params: caps(bgp.NewCapMultiProtocol(bgp.RF_IPv4_UC))}})
+}
+
+// ---------------------------------------------------------------- boundary sizes of what is emitted and accepted
+
+// c08RecConn records what is written, message by message (every Write of the fsm is one message).
+type c08RecConn struct {
+	c08Conn
+	mu     sync.Mutex
+	writes [][]byte
+}
+
+func (c *c08RecConn) Write(b []byte) (int, error) {
+	c.mu.Lock()
+	c.writes = append(c.writes, append([]byte{}, b...))
+	c.mu.Unlock()
+	return len(b), nil
+}
+
+// c08Padded builds, by construction, a message whose serialisation is exactly `total` octets long
+// (19-octet header included): an UPDATE without routes carrying one unknown optional transitive
+// attribute, or a NOTIFICATION with padded data.
+func c08Padded(typ uint8, total int) *bgp.BGPMessage {
+	if typ == bgp.BGP_MSG_NOTIFICATION {
+		return bgp.NewBGPNotificationMessage(bgp.BGP_ERROR_UPDATE_MESSAGE_ERROR, bgp.BGP_ERROR_SUB_MALFORMED_ATTRIBUTE_LIST,
+			make([]byte, total-bgp.BGP_HEADER_LENGTH-2))
+	}
+	// 2 (withdrawn length) + 2 (attribute length) + 4 (flags, type, extended length) + value
+	val := make([]byte, total-bgp.BGP_HEADER_LENGTH-8)
+	return bgp.NewBGPUpdateMessage(nil, []bgp.PathAttributeInterface{
+		bgp.NewPathAttributeUnknown(bgp.BGP_ATTR_FLAG_OPTIONAL|bgp.BGP_ATTR_FLAG_TRANSITIVE, 250, val)}, nil)
+}
+
+// c08SizedPath: a local IPv4 route whose single-route UPDATE is exactly `total` octets long when
+// `pathID` says whether the NLRI carries a path identifier. The AS_PATH is empty, so the 2-octet
+// down-conversion of sendMessageloop does not change the size.
+func c08SizedPath(total int, pathID bool) (*table.Path, int) {
+	nlri, _ := bgp.NewIPAddrPrefix(netip.MustParsePrefix("10.88.0.0/24"))
+	nh, _ := bgp.NewPathAttributeNextHop(netip.MustParseAddr("10.9.9.1"))
+	fixed := []bgp.PathAttributeInterface{bgp.NewPathAttributeOrigin(0), bgp.NewPathAttributeAsPath(nil), nh}
+	n := bgp.BGP_HEADER_LENGTH + 4 + 4 // header, the two length fields, the /24
+	if pathID {
+		n += 4
+	}
+	for _, a := range fixed {
+		b, _ := a.Serialize()
+		n += len(b)
+	}
+	n += 4 // flags, type, extended length of the padding attribute
+	val := make([]byte, total-n)
+	attrs := append(fixed, bgp.NewPathAttributeUnknown(bgp.BGP_ATTR_FLAG_OPTIONAL|bgp.BGP_ATTR_FLAG_TRANSITIVE, 250, val))
+	return table.NewPath(bgp.RF_IPv4_UC, nil, bgp.PathNLRI{NLRI: nlri}, false, attrs, time.Now(), false), n + len(val)
+}
+
+func c08HeaderLen(b []byte) int {
+	if len(b) < bgp.BGP_HEADER_LENGTH {
+		return -1
+	}
+	return int(binary.BigEndian.Uint16(b[16:18]))
+}
+
+// c08Boundaries: for the session just negotiated, messages whose TOTAL length is exactly at, one
+// below, one above and up to a header's length above the session maximum (4096, and 65535 with
+// Extended Message), through (a) Serialize under the options `send` of sendMessageloop passes,
+// (b) the real fsm.sendNotification, (c) the real sendMessageloop fed with a route sized so that
+// its UPDATE lands on the boundary, (d) the receive gate at the same totals.
+func c08Boundaries(o *vOut, r *vRand, c *c08Cfg, rm *c08Remote, f *fsm, h *fsmHandler, opens []string) {
+	bad := func(class, what string) { o.fail(class, c08Detail(c, opens, what)) }
+	specMax := func(typ uint8) int {
+		if rm.ext && (typ == bgp.BGP_MSG_UPDATE || typ == bgp.BGP_MSG_NOTIFICATION || typ == bgp.BGP_MSG_ROUTE_REFRESH) {
+			return bgp.BGP_MAX_EXTENDED_MESSAGE_LENGTH
+		}
+		return bgp.BGP_MAX_MESSAGE_LENGTH
+	}
+	totals := []int{4095, 4096, 4097, 4096 + bgp.BGP_HEADER_LENGTH, 4096 + bgp.BGP_HEADER_LENGTH + 1}
+	if rm.ext || r.chance(10) {
+		totals = append(totals, 65534, 65535, 65536, 65535+bgp.BGP_HEADER_LENGTH, 65535+bgp.BGP_HEADER_LENGTH+1)
+	}
+	ext := f.extendedMessage.Load()
+
+	// (a) Serialize under the session's send options
+	for _, typ := range []uint8{bgp.BGP_MSG_UPDATE, bgp.BGP_MSG_NOTIFICATION} {
+		for _, total := range totals {
+			m := c08Padded(typ, total)
+			buf, err := m.Serialize(&bgp.MarshallingOption{AddPath: c08FamilyMap(f), ExtendedMessage: ext})
+			written := 0
+			if err == nil {
+				written = len(buf)
+			}
+			o.ask(fmt.Sprint(written), "sendwrites %d %d", typ, total)
+			o.stat(fmt.Sprintf("boundary_serialize_ext_%d_%s", c08B(rm.ext), c08Rel(total, specMax(typ))), 1)
+			switch {
+			case written > specMax(typ):
+				bad("sent-oversized-message", fmt.Sprintf("Serialize under the session's options produced a %d-octet type-%d message, session maximum %d", written, typ, specMax(typ)))
+			case written == 0 && total <= specMax(typ):
+				bad("send-refused-fitting-message", fmt.Sprintf("a %d-octet type-%d message does not serialise, session maximum %d", total, typ, specMax(typ)))
+			case written != 0 && (written != total || c08HeaderLen(buf) != total):
+				bad("sent-length-field-wrong", fmt.Sprintf("a %d-octet type-%d message serialised to %d octets with length field %d", total, typ, written, c08HeaderLen(buf)))
+			}
+		}
+	}
+
+	// (b) fsm.sendNotification (no options: never extended)
+	for _, total := range []int{4096, 4097, 4096 + bgp.BGP_HEADER_LENGTH} {
+		rec := &c08RecConn{}
+		_ = f.sendNotification(rec, c08Padded(bgp.BGP_MSG_NOTIFICATION, total))
+		written := 0
+		for _, w := range rec.writes {
+			written += len(w)
+		}
+		o.ask(fmt.Sprint(written), "notifwrites %d", total)
+		if written > specMax(bgp.BGP_MSG_NOTIFICATION) {
+			bad("sent-oversized-message", fmt.Sprintf("sendNotification wrote a %d-octet NOTIFICATION, session maximum %d", written, specMax(bgp.BGP_MSG_NOTIFICATION)))
+		}
+	}
+
+	// (c) the real sendMessageloop with a route whose UPDATE has a chosen total length
+	mx := 4096
+	if ext {
+		mx = 65535
+	}
+	pathID := c08FamilyMap(f)[bgp.RF_IPv4_UC]&bgp.BGP_ADD_PATH_SEND != 0
+	cands := []int{mx - 1, mx, mx + 1, mx + bgp.BGP_HEADER_LENGTH, mx + bgp.BGP_HEADER_LENGTH + 1, mx + 1 + r.intn(bgp.BGP_HEADER_LENGTH-1)}
+	for _, i := range r.perm(len(cands))[:2] {
+		p, total := c08SizedPath(cands[i], pathID)
+		rec := &c08RecConn{}
+		ctx, cancel := context.WithCancel(context.Background())
+		wg := &sync.WaitGroup{}
+		wg.Add(1)
+		go h.sendMessageloop(ctx, rec, make(chan fsmStateReason, 3), wg)
+		h.outgoing.In() <- &fsmOutgoingMsg{Paths: []*table.Path{p}}
+		synctest.Wait()
+		cancel()
+		wg.Wait()
+		written, nUpd := 0, 0
+		for _, w := range rec.writes {
+			if len(w) > bgp.BGP_HEADER_LENGTH && w[18] == bgp.BGP_MSG_UPDATE {
+				nUpd++
+				written = len(w)
+				if len(w) > specMax(bgp.BGP_MSG_UPDATE) {
+					bad("sent-oversized-message", fmt.Sprintf("sendMessageloop wrote a %d-octet UPDATE (length field %d) for a route needing %d octets, session maximum %d",
+						len(w), c08HeaderLen(w), total, specMax(bgp.BGP_MSG_UPDATE)))
+				}
+				if c08HeaderLen(w) != len(w) {
+					bad("sent-length-field-wrong", fmt.Sprintf("sendMessageloop wrote %d octets with length field %d", len(w), c08HeaderLen(w)))
+				}
+			}
+		}
+		if nUpd > 1 {
+			written = -nUpd
+		}
+		o.ask(fmt.Sprint(written), "sendwrites 2 %d", total)
+		o.stat(fmt.Sprintf("boundary_sendloop_ext_%d_%s", c08B(rm.ext), c08Rel(total, specMax(bgp.BGP_MSG_UPDATE))), 1)
+		if nUpd == 0 && total <= specMax(bgp.BGP_MSG_UPDATE) {
+			bad("send-refused-fitting-message", fmt.Sprintf("sendMessageloop did not send the route whose UPDATE is %d octets, session maximum %d", total, specMax(bgp.BGP_MSG_UPDATE)))
+		}
+	}
+
+	// (d) the receive gate at the same totals (header only matters: the gate reads hd.Len)
+	for _, typ := range []uint8{bgp.BGP_MSG_UPDATE, bgp.BGP_MSG_NOTIFICATION, bgp.BGP_MSG_KEEPALIVE} {
+		for _, total := range []int{4096, 4097, 65535} {
+			refused := c08GateRefuses(h, typ, total)
+			o.ask(fmt.Sprint(c08B(!refused)), "recvfits %d %d", typ, total)
+			if refused != (total > specMax(typ)) {
+				bad("recv-length-gate", fmt.Sprintf("type %d, %d octets: refused %v, session maximum %d", typ, total, refused, specMax(typ)))
+			}
+		}
+	}
+}
+
+func c08Rel(total, mx int) string {
+	switch {
+	case total < mx:
+		return "below"
+	case total == mx:
+		return "at"
+	case total <= mx+bgp.BGP_HEADER_LENGTH:
+		return "above_within_header"
+	}
+	return "above"
+}
+
+// c08GateRefuses: does recvMessageWithError refuse a message of this type and total length as too large
+func c08GateRefuses(h *fsmHandler, typ uint8, total int) bool {
+	buf := make([]byte, total)
+	for i := 0; i < 16; i++ {
+		buf[i] = 0xff
+	}
+	binary.BigEndian.PutUint16(buf[16:18], uint16(total))
+	buf[18] = typ
+	h.fsm.conn = &c08Conn{rd: &c08Bytes{b: buf}}
+	fmsg, err := h.recvMessageWithError(h.fsm.conn, make(chan fsmStateReason, 4))
+	if err == nil || fmsg == nil {
+		return false
+	}
+	me, ok := fmsg.MsgData.(*bgp.MessageError)
+	return ok && me.TypeCode == bgp.BGP_ERROR_MESSAGE_HEADER_ERROR && me.SubTypeCode == bgp.BGP_ERROR_SUB_BAD_MESSAGE_LENGTH &&
+		strings.Contains(me.Message, "too large")
 }
